@@ -729,7 +729,10 @@ func main() {
 		"CancellableTimer.Wait", "Connection.waitForConnection", "Connection.getReconnectChanLocked",
 		"Connection.fireConnectDelayTimerIfRequested",
 		"NewTLSConnection", "NewTLSConnectionWithDialable",
-		"NewTLSConnectionWithConnectionLogFactory", "copyTLSConfig"}
+		"NewTLSConnectionWithConnectionLogFactory", "copyTLSConfig",
+		"framedMsgpackEncoder.EncodeAndWriteAsync", "framedMsgpackEncoder.encodeAndWriteInternal",
+		"framedMsgpackEncoder.encodeFrame", "framedMsgpackEncoder.EncodeAndWrite", "basicRPCData.loadContext",
+		"receiveHandler.taskLoop"}
 	for i, fn := range ordFns {
 		sep := ";"
 		if i == len(ordFns)-1 {
@@ -880,7 +883,10 @@ func main() {
 			"Connection.Shutdown", "ConnectionTransportTLS.Dial",
 			"CancellableTimer.Wait", "CancellableTimer.StartRandom", "CancellableTimer.StartConstant", "CancellableTimer.FireNow",
 			"CancellableTimer.swap", "CancellableTimer.get", "fireOnce.fire", "fireOnce.wait", "isWithFireNow",
-			"Connection.fireConnectDelayTimerIfRequested"}
+			"Connection.fireConnectDelayTimerIfRequested",
+			"framedMsgpackEncoder.EncodeAndWriteAsync", "framedMsgpackEncoder.encodeAndWriteInternal",
+			"framedMsgpackEncoder.encodeFrame", "framedMsgpackEncoder.EncodeAndWrite", "packetizer.NextFrame",
+			"basicRPCData.loadContext", "receiveHandler.taskLoop", "lastErrReader.Read"}
 		var conds, rets, gos, asg []string
 		for _, fn := range selFns {
 			fd, ok := fm[fn]
